@@ -201,6 +201,8 @@ def sign_query(e, truth_set):
     ts = frozenset(_FLIP[t] for t in truth_set) if flip else frozenset(truth_set)
     p = current()
     possible = p.sign_set(key, poly)
+    if not (possible <= ts) and (possible & ts) and key not in p.signs:
+        possible = possible & _sign_from_factors(p, poly)
     if possible <= ts:
         p.narrow(key, poly, possible)
         return True
@@ -213,6 +215,42 @@ def sign_query(e, truth_set):
         return True
     p.narrow(key, poly, possible - ts)
     return False
+
+
+_MUL = {(NEG, NEG): POS, (NEG, POS): NEG, (POS, NEG): NEG, (POS, POS): POS}
+
+
+def _sign_from_factors(p, poly):
+    """possible signs of a product from what the path knows about its factors (no fork)"""
+    if not p.signs or poly.count_ops() > 600:
+        return ALL3
+    try:
+        coeff, factors = sp.factor_list(poly)
+    except Exception:
+        return ALL3
+    if len(factors) <= 1 and (not factors or factors[0][1] == 1):
+        return ALL3
+    cur = {POS} if coeff > 0 else {NEG}
+    for f, mult in factors:
+        key, fp, flip = canon(f)
+        if key is None:
+            continue
+        fs = set(p.sign_set(key, fp))
+        if flip:
+            fs = {_FLIP[x] for x in fs}
+        if mult % 2 == 0:
+            fs = {POS if x != ZERO else ZERO for x in fs}
+        new = set()
+        for a in cur:
+            for b in fs:
+                if a == ZERO or b == ZERO:
+                    new.add(ZERO)
+                else:
+                    new.add(_MUL[(a, b)])
+        cur = new
+        if len(cur) == 3:
+            return ALL3
+    return frozenset(cur)
 
 
 def assume_sign(e, truth_set):
